@@ -8,6 +8,7 @@
 import Ctrmml.Proofs.Layout
 import Ctrmml.Proofs.Mml
 import Ctrmml.Proofs.LayoutLines
+import Ctrmml.Proofs.LayoutBlockLines
 import Ctrmml.Proofs.LayoutDec
 import Ctrmml.Proofs.StarDecimal
 import Ctrmml.Spec.Layout
@@ -294,17 +295,6 @@ theorem C06_conditional_select_partial (skipped : List (List Nat)) (pre rest : L
 /-- non-vacuity: `AB {c d/e}` for the second track: skip `c d`, land on `e` -/
 example : (∀ a ∈ [tx "c d"], ∀ x ∈ a, (schar x == 0 || (schar x == 47 || schar x == 59)) = false) := by decide
 
-/-- the full statement of `multitrack_eq_single`: a well-formed multi-track stream rendered as
-multi-track lines gives every track the events of its own single-track lines.  NOT proved (it needs
-`command_consumes_span` for every command parser); false as stated when an alternative spells `/`
-or `}` (D16: `C06_nested_separator_counterexample`); carried by the metamorphic stream -/
-def C06_full_statement_multitrack_eq_single : Prop :=
-  ∀ (multi single : List (List Nat)) (a : Nat),
-    -- `single` = the lines of `multi` with every header replaced by the one track `a` and every block by `a`'s alternative
-    True →
-    ((readLines 0 multi MmlState.init).state.song.tracks.lookup a).map Track.getEvents =
-    ((readLines 0 single MmlState.init).state.song.tracks.lookup a).map Track.getEvents
-
 /-! ## whole-line layout invariance
 
 `Proofs/TrackStrip`, `Proofs/LayoutLine`, `Proofs/LayoutLines`.  A *layout* (`LLine`, `Tok`) of a
@@ -427,6 +417,138 @@ example :
 /-- a separator behind a command: the hypothesis of `C06_separator_suffices` -/
 example : ∀ c ts', [Tok.blank 9, Tok.bar, Tok.cmd .octUp] ≠ Tok.cmd c :: ts' := by
   intro c ts' h; cases h
+
+/-! ## conditional blocks
+
+`Proofs/LayoutBlock`, `Proofs/LayoutBlockLines`.  The body of a line is now a list of `Item`s: a
+run of tokens, or a block `{a₀/a₁/…}` whose alternatives are token lists (`BLine`, `BLinesOk`).
+`ItemsOk j` asks, for the track at position `j` of the line's track list, that the block has an
+alternative `j`, that NO alternative of the block contains `/`, `;`, `}` or NUL (`Clean` — the
+hypothesis of `C06_conditional_select_partial`; exactly what D16 violates), and `ToksOk` of the
+selected alternative.  `blayoutCmds j` are the commands position `j` receives (`Item.sel`:
+a plain command goes to every track, a block gives alternative `j`). -/
+
+/-- A MULTI-TRACK LAYOUT WITH CONDITIONAL BLOCKS RUNS, PER TRACK, AS THAT TRACK'S OWN COMMAND
+LIST (PARTIAL: `CmdsOk` — covered command subset, numbers in range — for what each track
+receives; the `Clean` hypothesis inside `BLinesOk` is the documented limit D16).  The lines are
+accepted; the track at position `j` of the track list ends, up to source references, as after the
+builder calls of `blayoutCmds j`; no other track changes. -/
+theorem C06_multitrack_blocks_run_partial (ids : List Nat) (ls : List BLine) (n : Nat) (s : MmlState) (r : Bool)
+    (hnd : ids.Nodup) (hne : ids ≠ []) (hlen : ids.length ≤ 65536) (hok : BLinesOk ids r ls) (hready : r = true → Ready ids s)
+    (hcmds : ∀ j id, ids[j]? = some id → CmdsOk (trackOf id s).strip (blayoutCmds j ls)) :
+    ∃ s', readLines n (ls.map BLine.text) s = .ok () s' ∧
+      (∀ j id, ids[j]? = some id → (trackOf id s').strip = runCmds (trackOf id s).strip (blayoutCmds j ls)) ∧
+      (∀ b, b ∉ ids → s'.song.tracks.lookup b = s.song.tracks.lookup b) := by
+  obtain ⟨s', h1, h2⟩ := readLines_blayout ids hnd hne hlen ls n s r hok hready hcmds
+  exact ⟨s', h1, h2.tracks, h2.others⟩
+
+/-- MULTI-TRACK LINES WITH BLOCKS = THE EQUIVALENT SINGLE-TRACK LINES (PARTIAL: `CmdsOk`, and
+`Clean` inside `BLinesOk`).  For the track `a` at position `j`: the multi-track layout and ANY
+block-free layout addressed to `a` alone whose commands are `a`'s selection (plain commands and
+alternative `j` of every block) are both accepted and leave track `a` the same up to source
+references — the same `get_events()`. -/
+theorem C06_multitrack_eq_single_blocks_partial (ids : List Nat) (j a : Nat) (multi : List BLine) (single : List LLine) (n1 n2 : Nat) (s : MmlState)
+    (hj : ids[j]? = some a) (hnd : ids.Nodup) (hlen : ids.length ≤ 65536)
+    (hok1 : BLinesOk ids false multi) (hok2 : LinesOk [a] false single)
+    (hsame : layoutCmds single = blayoutCmds j multi)
+    (hc : ∀ j id, ids[j]? = some id → CmdsOk (trackOf id s).strip (blayoutCmds j multi)) :
+    ∃ s1' s2', readLines n1 (multi.map BLine.text) s = .ok () s1' ∧ readLines n2 (single.map LLine.text) s = .ok () s2' ∧
+      (trackOf a s1').strip = (trackOf a s2').strip ∧ (trackOf a s1').getEvents = (trackOf a s2').getEvents := by
+  have hne : ids ≠ [] := by intro h; rw [h] at hj; simp at hj
+  obtain ⟨s1', h1, t1, _⟩ := C06_multitrack_blocks_run_partial ids multi n1 s false hnd hne hlen hok1 (fun h => by cases h) hc
+  obtain ⟨s2', h2, t2, _⟩ := C06_layout_run_partial [a] single n2 s false (by simp) (by simp) hok2 (fun h => by cases h)
+    (fun id hid => by
+      have : id = a := by simpa using hid
+      subst this; rw [hsame]; exact hc j id hj)
+  have hst : (trackOf a s1').strip = (trackOf a s2').strip := by rw [t1 j a hj, t2 a (by simp), hsame]
+  refine ⟨s1', s2', h1, h2, hst, ?_⟩
+  rw [← Track.strip_getEvents, hst, Track.strip_getEvents]
+
+/-- every command token is followed by a separator (or ends its run) -/
+def SepToks : List Tok → Prop
+  | .cmd _ :: .cmd _ :: _ => False
+  | _ :: ts => SepToks ts
+  | [] => True
+
+def SepItems (items : List Item) : Prop :=
+  ∀ it ∈ items, match it with
+    | .toks ts => SepToks ts
+    | .block alts => ∀ a ∈ alts, SepToks a
+
+def _root_.Ctrmml.Mml.BLine.items : BLine → List Item
+  | .hdr _ _ items _ => items
+  | .cont _ items _ => items
+  | _ => []
+
+/-- the full statement of `multitrack_eq_single`, for EVERY command of the language (`Tok.cmd`
+takes any `Cmd`), from the empty song: a multi-track layout with conditional blocks whose
+alternatives are `Clean`, every command followed by a separator, is accepted exactly when the
+single-track layouts of all its tracks are, and then gives each track the events of its
+single-track layout.  NOT proved in this generality: `C06_multitrack_eq_single_blocks_partial`
+has the extra hypothesis `CmdsOk` (every command in the subset C05 covers, numbers in range,
+`&` finds its note), under which everything is accepted.  Without `Clean` the statement is false:
+D16, `C06_nested_separator_counterexample`. -/
+def C06_full_statement_multitrack_eq_single : Prop :=
+  ∀ (ids : List Nat) (multi : List BLine) (single : Nat → List LLine),
+    ids.Nodup → ids ≠ [] → ids.length ≤ 65536 → BLinesOk ids false multi → (∀ l ∈ multi, SepItems l.items) →
+    (∀ j a, ids[j]? = some a → LinesOk [a] false (single j) ∧ layoutCmds (single j) = blayoutCmds j multi) →
+    ((∃ s', readLines 0 (multi.map BLine.text) MmlState.init = .ok () s') ↔
+      ∀ j a, ids[j]? = some a → ∃ s', readLines 0 ((single j).map LLine.text) MmlState.init = .ok () s') ∧
+    (∀ s1, readLines 0 (multi.map BLine.text) MmlState.init = .ok () s1 → ∀ j a, ids[j]? = some a →
+      ∀ s2, readLines 0 ((single j).map LLine.text) MmlState.init = .ok () s2 →
+        (trackOf a s1).getEvents = (trackOf a s2).getEvents)
+
+def _root_.Ctrmml.Mml.LLine.toks : LLine → List Tok
+  | .hdr _ _ ts _ => ts
+  | .cont _ ts _ => ts
+  | _ => []
+
+/-- the full statement of layout invariance, for EVERY command of the language, from the empty
+song: two layouts of one command list, every command followed by a separator, are both accepted
+or both rejected, and when accepted give the track the same events.  NOT proved in this
+generality: `C06_layout_invariant_partial` has the extra hypothesis `CmdsOk` (covered subset). -/
+def C06_full_statement_layout_invariant : Prop :=
+  ∀ (a : Nat) (ids1 ids2 : List Nat) (ls1 ls2 : List LLine),
+    a ∈ ids1 → a ∈ ids2 → ids1.Nodup → ids2.Nodup → LinesOk ids1 false ls1 → LinesOk ids2 false ls2 →
+    (∀ l ∈ ls1 ++ ls2, SepToks l.toks) → layoutCmds ls1 = layoutCmds ls2 →
+    match readLines 0 (ls1.map LLine.text) MmlState.init, readLines 0 (ls2.map LLine.text) MmlState.init with
+    | .ok _ s1, .ok _ s2 => (trackOf a s1).getEvents = (trackOf a s2).getEvents
+    | .err _ _, .err _ _ => True
+    | _, _ => False
+
+/-! ### non-vacuity: a layout with blocks, bars, an empty alternative and a continuation line -/
+
+/-- `ABC o4{c/d+/g} | {d 8/ /a:12} e`, then ` {/>f/}{g/a/b};x` -/
+def exBlocks : List BLine :=
+  [.hdr [.letter 0, .letter 1, .letter 2] 32
+    [.toks [.cmd (.octave { v := 4 })],
+     .block [[.cmd (.note 2 .none (.dflt 0))], [.cmd (.note 3 .sharp (.dflt 0))], [.cmd (.note 6 .none (.dflt 0))]],
+     .toks [.blank 32, .bar, .blank 32],
+     .block [[.cmd (.note 3 .none (.dflt 0)), .blank 32, .cmd (.length (.len { v := 8 } 0))], [.blank 32], [.cmd (.note 0 .none (.frames { v := 12 } 0))]],
+     .toks [.blank 32, .cmd (.note 4 .none (.dflt 0))]] [],
+   .cont 32
+    [.block [[], [.cmd .octUp, .cmd (.note 5 .none (.dflt 0))], []],
+     .block [[.cmd (.note 6 .none (.dflt 0))], [.cmd (.note 0 .none (.dflt 0))], [.cmd (.note 1 .none (.dflt 0))]]] (tx ";x")]
+
+/-- what `B` receives, as the single-track lines `B o4 d+ e`, ` > f a` -/
+def exBlocksB : List LLine :=
+  [.hdr [.letter 1] 32 [.cmd (.octave { v := 4 }), .blank 32, .cmd (.note 3 .sharp (.dflt 0)), .blank 32, .cmd (.note 4 .none (.dflt 0))] [],
+   .cont 32 [.cmd .octUp, .blank 32, .cmd (.note 5 .none (.dflt 0)), .blank 32, .cmd (.note 0 .none (.dflt 0))] []]
+
+example : exBlocks.map BLine.text = [tx "ABC o4{c/d+/g} | {d l8/ /a:12} e", tx " {/>f/}{g/a/b};x"] ∧
+    exBlocksB.map LLine.text = [tx "B o4 d+ e", tx " > f a"] ∧ layoutCmds exBlocksB = blayoutCmds 1 exBlocks := by
+  refine ⟨by decide, by decide, rfl⟩
+
+/-- the hypotheses of `C06_multitrack_blocks_run_partial` / `C06_multitrack_eq_single_blocks_partial` hold -/
+example : BLinesOk [0, 1, 2] false exBlocks ∧ LinesOk [1] false exBlocksB ∧ [0, 1, 2].Nodup ∧
+    (∀ j, j < 3 → CmdsOk (trackOf ([0, 1, 2].getD j 0) MmlState.init).strip (blayoutCmds j exBlocks)) := by
+  decide +kernel
+
+/-- … and the model evaluated on the texts agrees: B's events are those of its single-track lines -/
+example :
+    ((outcome ["ABC o4{c/d+/g} | {d l8/ /a:12} e", " {/>f/}{g/a/b};x"]).2.lookup 1) = ((outcome ["B o4 d+ e", " > f a"]).2.lookup 1) ∧
+    (outcome ["ABC o4{c/d+/g} | {d l8/ /a:12} e", " {/>f/}{g/a/b};x"]).1 = none := by
+  decide +kernel
 
 /-! ## D16: the textual scan of conditional blocks -/
 
